@@ -74,6 +74,10 @@ class Model:
         not fix the return value."""
         k = op["op"]
         name = op["name"]
+        if isinstance(name, bytes):
+            name = name.decode("utf-8")
+        if isinstance(op.get("newname"), bytes):
+            op = dict(op, newname=op["newname"].decode("utf-8"))
         i = self.find(name)
         if k == "add":
             if i >= 0:
